@@ -9,6 +9,8 @@ queried before its twin, and few argument patterns are used per step, so
 that lru_cache eviction (maxsize 32 per method, shared by all instances)
 cannot mask a stale entry.
 """
+import os
+
 import numpy as np
 from hypothesis import strategies as st
 
@@ -862,6 +864,10 @@ class DataFamily(Family):
         win = {"time_min": float(t0), "time_max": float(t1),
                "lat_min": float(lat[0]), "lat_max": float(lat[a]),
                "lon_min": float(lon[0]), "lon_max": float(lon[b])}
+        la, lo = np.asarray(m["lat"]), np.asarray(m["lon"])
+        if not ((la <= win["lat_max"]) & (lo <= win["lon_max"])).any():
+            # no node inside: set_window refuses such a window (ValueError)
+            raise Stop()
         o.set_window(win)
         m["win"] = win
 
@@ -901,6 +907,12 @@ def fam(name):
 
 
 def oracle(case, rec):
+    # cases are independent: MutualInfoClimateNetwork keeps a file cache
+    # (mutual_information_*.data) in the working directory, and the failing
+    # dump of KF-C01-1 leaves a truncated one behind
+    import glob
+    for f in glob.glob("*.data"):
+        os.remove(f)
     run_history(fam(case["family"]), case, rec)
 
 
